@@ -36,7 +36,7 @@ theorem ev_FL (w : World) (k : AfterFlush) :
 
 theorem ev_PS (w : World) (ctx : StepCtx) (step : Outbound.Step) (now : Nat) :
     ev (.PS w ctx step now) = match prepareStep w step with
-      | .fail e => (w.discFail ctx).finishErr (ctxName ctx) e
+      | .fail e => (w.failStep ctx step).finishErr (ctxName ctx) e
       | .done => ev (.SR w ctx false)
       | .flush pkt => if !w.live then (w.discFail ctx).finishErr (ctxName ctx) .disconnected else ev (.DSF w ctx pkt now)
       | .write pkt bytes written len =>
@@ -372,7 +372,11 @@ theorem psF_none (k : AfterFlush) (u : World) (hs : u.slot = none) (hg : AwaitOK
     OutF k (ev (.PS u (.flush k) st u.now)) (ev (.PS u (.drive adv .poll) st u.now)) := by
   rw [ev_PS, ev_PS]
   cases hp : prepareStep u st with
-  | fail e => exact .done rfl rfl (doneF_discFail k adv u e)
+  | fail e =>
+    cases st with
+    | retained id off len s => exact .done rfl rfl (doneF_discFail k adv u e)
+    | control a s => exact .done rfl rfl (.inl rfl)
+    | release id rc s => exact .done rfl rfl (.inl rfl)
   | done => rw [hp] at hnd; simp [isDone] at hnd
   | flush pkt =>
     simp only []
